@@ -215,8 +215,20 @@ func resolveAnchors(p *Prog) []string {
 				cands = append(cands, f)
 			}
 		}
+		if len(cands) == 0 && a.recv != "" {
+			// a method turned into a plain function of the same package (or moved to another
+			// receiver): same parameters and results, receiver dropped
+			for _, f := range p.PkgFuncs(a.rel) {
+				if f.Parent() != nil || f.Synthetic != "" || (f.Object() != nil && f.Object().Exported()) || recvName(f) == a.recv {
+					continue
+				}
+				if sigString(f) == a.sig {
+					cands = append(cands, f)
+				}
+			}
+		}
 		if len(cands) == 1 {
-			anchorAlias[mqRaw(a.rel, a.recv, a.name)] = mqRaw(a.rel, a.recv, cands[0].Name())
+			anchorAlias[mqRaw(a.rel, a.recv, a.name)] = mqRaw(a.rel, recvName(cands[0]), cands[0].Name())
 			anchorAliasFn[mqRaw(a.rel, a.recv, a.name)] = cands[0]
 			notes = append(notes, fmt.Sprintf("anchor %s.%s not found by name; using %s (unique unexported function with the same receiver and signature)", a.recv, a.name, fname(cands[0])))
 		}
